@@ -49,6 +49,11 @@ def rdSubC {α : Type} [Inhabited α] (a : Array α) (off len i : Nat) : Except 
 def wrSubC {α : Type} (a : Array α) (off len i : Nat) (v : α) : Except Panic (Array α) :=
   if i < len then wrC a (off + i) v else .error .indexOutOfBounds
 
+/-- the bound check of `a[i]` for an array of length `len` whose contents the model does
+    not carry (e.g. JitterRng's scratch memory) -/
+def idxC (len i : Nat) : Except Panic Unit :=
+  if i < len then .ok () else .error .indexOutOfBounds
+
 /-- `l[i]` on a list-modelled slice -/
 def lrdC {α : Type} [Inhabited α] (l : List α) (i : Nat) : Except Panic α :=
   if i < l.length then .ok (l.getD i default) else .error .indexOutOfBounds
